@@ -91,6 +91,8 @@ def knobs_for(rng: Any) -> dict[str, Any]:
     if rng.random() < 0.3:
         # what the locale says about text files opened without an explicit encoding
         k["locale_encoding"] = rng.choice(["latin-1", "cp1252", "ascii", "utf-16", "utf-8"])
+    if rng.random() < 0.2:
+        k["warnings"] = "error"  # python -W error
     return k
 
 
@@ -176,6 +178,13 @@ def check_symfile(text: str, prog: progen.Prog, twin: dict[str, Any], timg: ipsr
             problems.append(("label_count", f"label {name} is defined {len(want)} time(s) outside loops but appears on {len(got)} line(s) of the symbol file"))
         elif got != want:
             problems.append(("label_bank_offset", f"label {name}: definitions {[f'{b:x}:{o:x}' for b, o in want]} exported as {[f'{b:x}:{o:x}' for b, o in got]}"))
+    # twin labels: 'X:' and 'X_tw:' are defined at the same spot, so they are exported with the same address
+    # whatever else carries the name X (progen re-binds some X with '=' later in the same scope)
+    names = set(prog.symfile_label_names())
+    for name in sorted(lines):
+        tw = lines.get(name + "_tw")
+        if tw is not None and name in names and sorted(lines[name]) != sorted(tw):
+            problems.append(("label_twin", f"labels {name} and {name}_tw are defined at the same place but exported as {[f'{b:x}:{o:x}' for b, o in lines[name]]} and {[f'{b:x}:{o:x}' for b, o in tw]}"))
     return problems
 
 
